@@ -95,12 +95,18 @@ fn check_i32(i: i32, acc: &mut Acc) {
         }
         acc.count("outside");
     } else {
-        // −32768..−1: the statement says "16-bit range"; the code documents the
-        // bit-pattern reading. Either Invalid or the u16 reinterpretation is accepted.
+        // −32768..−1 is the signed reading of a 16-bit mode word with bit 15 set (regular files and
+        // symbolic links!): the word must be classified by its type bits like any other 16-bit word.
         let u = FileMode::from(i as u16);
-        let ok = invalid || m == u;
-        if !ok {
-            acc.viol(Violation::new("i32", format!("{}: {:?} is neither Invalid nor {:?}", i, m, u), case()).sig("clause", "i32-negative"));
+        let same = match (&m, &u) {
+            (FileMode::Invalid { .. }, FileMode::Invalid { .. }) => m.raw_mode() == u.raw_mode(),
+            _ => m == u,
+        };
+        if !same {
+            acc.viol(Violation::new("i32", format!("{} is the 16-bit word {:#o}: u16 path gives {:?}, i32 path {:?}", i, i as u16, u, m), case()).sig("clause", "i32-negative"));
+        }
+        if !matches!(u, FileMode::Invalid { .. }) {
+            acc.nontrivial += 1;
         }
         acc.count("negative-16bit");
     }
